@@ -112,6 +112,10 @@ func NewConsumerGroup(parent, fanOutPath string, q FanOutQueue) (ConsumerGroup, 
 		if ackSeq < ackOfQueue {
 			ackSeq = ackOfQueue
 		}
+		if consumedSeq < ackSeq {
+			// messages at or below the ack sequence may be removed, consume must restart after it
+			consumedSeq = ackSeq
+		}
 	}
 	// persist metadata
 	metaPage.PutUint64(uint64(consumedSeq), consumerGroupConsumedSeqOffset)
